@@ -62,7 +62,8 @@ def write_config(d, table):
         if c["options"]:
             opts = []
             for t in c["options"]:
-                opts += tok_argv(t)
+                # implicit options are an argv fragment: flag and value as separate list elements
+                opts += [t["flag"], t["val"]] if t["flag"] == "-D" else tok_argv(t)
             lines.append(f"options = {tlist(opts)}")
         lines.append("")
         for r in c["rules"]:
@@ -335,14 +336,38 @@ BUILTIN_FLAGS = {
 }
 
 
-def builtin_check(ctx):
-    """Every documented flag combination of the built-in compilers, judged by CompilerCfg.Parse."""
+def T(flag, val=""):
+    return {"flag": flag, "val": val, "parts": [], "matches": []}
+
+
+# a user configuration that EXTENDS built-in compilers: repeated list elements in `options`, an extra rule and
+# mode for gcc, an alias of a built-in compiler under a new name
+USER_EXT = {
+    "gcc": {"alias": "", "options": [T("-D", "UA"), T("-D", "UB"), T("-I", "/uinc"), T("-I", "/uinc2")],
+            "rules": [{"flags": ["-fuser"], "action": "append_const", "dest": "modes", "const": "umode", "prefix": "",
+                       "hasdef": False, "default": [], "override": False, "sep": ",", "pattern": ""}],
+            "modes": {"umode": {"defines": ["UMODE"], "ipaths": [], "ifiles": []}}, "passes": {}},
+    "nvcc": {"alias": "", "options": [T("-D", "NVU=1"), T("-D", "NVU2")], "rules": [], "modes": {}, "passes": {}},
+    "mycc-1.0": {"alias": "gcc", "options": [], "rules": [], "modes": {}, "passes": {}},
+}
+
+
+def builtin_check(ctx, user=None):
+    """Every documented flag combination of the built-in compilers, judged by CompilerCfg.Parse.
+    With `user`: the same under a .cbi/config that extends the built-in definitions (CompilerCfg.Extend)."""
     import itertools
     from codebasin import config
     table = builtin_table()
     cmds = []
-    for name, flags in BUILTIN_FLAGS.items():
-        c = table[table[name]["alias"] or name]
+    flagsets = dict(BUILTIN_FLAGS)
+    if user:
+        flagsets = {"gcc": ["-fopenmp", "-fuser"], "g++": ["-fopenmp"], "mycc-1.0": ["-fopenmp", "-fuser"],
+                    "nvcc": BUILTIN_FLAGS["nvcc"][:3], "clang": ["-fopenmp"]}
+    for name, flags in flagsets.items():
+        base = name if name in table else user[name]["alias"]
+        c = table[table[base]["alias"] or base]
+        if user and (table[base]["alias"] or base) in user:
+            c = dict(c, rules=c["rules"] + user[table[base]["alias"] or base]["rules"])
         for r_ in range(len(flags) + 1):
             for combo in itertools.combinations(flags, r_):
                 argv = [{"flag": "-D", "val": "U=1", "parts": [], "matches": []}]
@@ -355,18 +380,21 @@ def builtin_check(ctx):
                 cmds.append({"name": name, "argv": argv})
     os.makedirs(core.OUT, exist_ok=True)
     cf = os.path.join(core.OUT, f"builtin_{os.getpid()}.json")
-    json.dump({"table": table, "cmds": cmds}, open(cf, "w"))
+    json.dump(dict({"table": table, "cmds": cmds}, **({"user": user} if user else {})), open(cf, "w"))
     try:
         r = core.tlc("EvalCompilerCfg", "EvalCompilerCfg.cfg", workers=1, timeout=900, env={"CFG_FILE": cf}, tag="builtin")
     finally:
         os.unlink(cf)
-    ctx.add_tlc("EvalCompilerCfg (built-in definition files x documented flag combinations)", r)
+    ctx.add_tlc("EvalCompilerCfg (built-in definition files x documented flag combinations)" +
+                (" extended by a user configuration" if user else ""), r)
     res = {j["idx"]: j["res"] for j in r.json if isinstance(j, dict) and "idx" in j}
     if len(res) != len(cmds):
         raise core.MachineryError(f"EvalCompilerCfg judged {len(res)} of {len(cmds)} commands")
     cwd = os.getcwd()
     d = tempfile.mkdtemp(prefix="c12b-", dir=ctx.scratch())
     os.chdir(d)
+    if user:
+        write_config(d, user)
     config._compilers = None
     try:
         for k, cmd in enumerate(cmds, start=1):
@@ -386,7 +414,9 @@ def builtin_check(ctx):
             if set(gotd) != set(wantd):
                 bad = f"passes {sorted(gotd)} expected {sorted(wantd)}"
             else:
-                mt = table[table[cmd["name"]]["alias"] or cmd["name"]]["modes"]
+                bn = cmd["name"] if cmd["name"] in table else user[cmd["name"]]["alias"]
+                bn = table[bn]["alias"] or bn
+                mt = dict(table[bn]["modes"], **(user[bn]["modes"] if user and bn in user else {}))
                 for pn, w in wantd.items():
                     extra = collections.Counter()
                     for mn in w["modes"]:
@@ -394,6 +424,9 @@ def builtin_check(ctx):
                     g = gotd[pn]
                     if list(g.defines[:len(w["defines"])]) != w["defines"] or collections.Counter(g.defines[len(w["defines"]):]) != extra:
                         bad = f"pass {pn} defines {g.defines} expected {w['defines']} + modes {dict(extra)}"
+                        break
+                    if list(g.include_paths[:len(w["ipaths"])]) != w["ipaths"]:
+                        bad = f"pass {pn} include paths {g.include_paths} expected to start with {w['ipaths']}"
                         break
             if bad:
                 ctx.fail("G", ["builtin"], "builtin-configuration-differs", f"{cmd['name']} {argv}: {bad}", cmd)
@@ -447,6 +480,7 @@ def run(ctx):
                 "history": [(h["name"], [tok_argv(t) for t in h["argv"]]) for h in c0["hist"]],
                 "expected_passes": [[c["pass"] for c in e["configs"]] for e in c0["expect"]]})
     builtin_check(ctx)
+    builtin_check(ctx, user=USER_EXT)
     work = ctx.scratch()
     jobs = [(c, work) for c in runner.chunks(allc, runner.NCPU * 2)]
     for lst in runner.pmap(_jobs, jobs, chunk=1):
